@@ -169,6 +169,21 @@ var requiredGas = map[string]uint64{"delegate": 300_000, "undelegate": 200_000, 
 type Call struct {
 	Caller, Sender string
 	Ops            []Op
+	Items          []Item // messages of cQ only: the calls in order, views included (Ops = the state-changing ones)
+}
+
+// SeqCall builds a message of cQ.
+func SeqCall(items ...Item) Call {
+	c := Call{Caller: SeqCaller, Sender: "a0", Items: items}
+	for _, it := range items {
+		if it.View == "" {
+			c.Ops = append(c.Ops, it.Op)
+		}
+	}
+	if len(c.Ops) == 0 {
+		panic("a message of cQ carries at least one state-changing call (a twin step is about one)")
+	}
+	return c
 }
 
 // Step performs one twin execution at the committed state of c and returns the chain to continue from.
@@ -186,16 +201,24 @@ func (w *World) Step(out *trace.W, c *chain.Chain, preM trace.M, n int, call Cal
 	if via == "staticcall" {
 		native = nil // a read-only frame may not change state: nothing corresponds
 	}
-	a := c.Clone()
-	b := c
 	// gas limit: what the methods declare + room for the transaction and the forwarding contract (a failing call
 	// burns the whole limit)
 	gas := uint64(160_000)
 	for _, o := range call.Ops {
 		gas += requiredGas[o.M]
 	}
+	// views of a message of cQ: the native queries on the state before the transaction
+	natPre := make([]int64, len(call.Items))
+	for i, it := range call.Items {
+		if it.View != "" {
+			natPre[i] = w.NativeView(c, it)
+			gas += 100_000
+		}
+	}
+	a := c.Clone()
+	b := c
 	// route cpc
-	ethBz := w.EthTx(a, call.Sender, call.Caller, call.Ops, gas, price)
+	ethBz := w.EthTx(a, call.Sender, call.Caller, call.Ops, call.Items, gas, price)
 	boA := a.Deliver(ethBz)
 	if boA.Panic != nil || boA.Err != nil {
 		panic(fmt.Sprint("block with the precompile call failed: ", boA.Panic, boA.Err))
@@ -207,6 +230,27 @@ func (w *World) Step(out *trace.W, c *chain.Chain, preM trace.M, n int, call Cal
 		okA = er.HasReceipt && er.Status == 1 && flag.Big().Int64() == 2
 	}
 	postA := w.Project(a)
+	// the message of cQ as the trace shows it: state-changing calls by their index into ops, views with the answer kept
+	// by the contract and the native query before / after the transaction
+	seq := []interface{}{}
+	nop := 0
+	for i, it := range call.Items {
+		if it.View == "" {
+			nop++
+			seq = append(seq, trace.M{"t": "op", "i": nop, "m": "-", "d": "-", "v": "-", "cpc": int64(0), "natPre": int64(0), "natPost": int64(0)})
+			continue
+		}
+		ans := int64(-1)
+		if okA {
+			ans = w.seqAnswer(a, i)
+		}
+		v := it.V
+		if v == "" {
+			v = "-"
+		}
+		seq = append(seq, trace.M{"t": "view", "i": 0, "m": it.View, "d": it.D, "v": v, "cpc": ans, "natPre": natPre[i], "natPost": w.NativeView(a, it)})
+		stats["seqviews"]++
+	}
 	A := trace.M{"ok": okA, "code": int64(er.Code), "receipt": er.HasReceipt, "gasUsed": er.GasUsed, "price": er.EffPrice,
 		"logs": er.Logs, "events": er.Events, "st": postA, "err": truncs(er.Log, 120)}
 	// route native
@@ -237,7 +281,7 @@ func (w *World) Step(out *trace.W, c *chain.Chain, preM trace.M, n int, call Cal
 		nat = append(nat, m.J())
 	}
 	out.Emit(trace.M{"ev": "Twin", "n": n, "now": a.Height * chain.BlockSecs, "caller": call.Caller, "sender": call.Sender, "via": via,
-		"ops": ops, "native": nat, "A": A, "B": B, "cont": cont})
+		"ops": ops, "native": nat, "A": A, "B": B, "cont": cont, "seq": seq})
 	stats["twin"]++
 	stats[fmt.Sprintf("%s/%s/%s", call.Ops[0].M, via, okStr(okA))]++
 	if cont == "A" {
@@ -432,11 +476,31 @@ func (g *Gen) signed(p pre, d string, valid bool) Op {
 	return o
 }
 
+// IsSignedOp tells the signed-message variants.
+func IsSignedOp(o Op) bool { return o.M == "delegateByMsg" || o.M == "withdrawByMsg" }
+
 // Call draws one twin step.
 func (g *Gen) Call(p pre) Call {
 	d := g.pick(callers...)
 	if g.R.Intn(40) == 0 {
 		d = "cS"
+	}
+	if g.R.Intn(14) == 0 {
+		// a message of several calls with views in between
+		o := g.Op(p, SeqCaller)
+		if IsSignedOp(o) {
+			o = Op{M: "delegate", V: g.pick(g.W.V...), Amt: 1 + g.R.Int63n(9)}
+		}
+		view := func() Item {
+			return Item{View: g.pick("rewardsOf", "balanceOf", "rewardOf", "delegationOf", "totalDelegationOf"), D: SeqCaller, V: g.pick(g.W.V...)}
+		}
+		switch g.R.Intn(3) {
+		case 0:
+			return SeqCall(view(), Item{Op: o}, view())
+		case 1:
+			return SeqCall(Item{Op: o}, view())
+		}
+		return SeqCall(view(), Item{Op: o})
 	}
 	c := Call{Caller: d, Sender: d}
 	if IsContract(d) {
